@@ -236,14 +236,20 @@ def same_tree(h, want, got, path=''):
     return (z3.And(*conj) if conj else True), f'{path}: leaf values'
 
 
-@unit('C18', 'deep_update.contract', [f'{CORE}:deep_update'])
+@unit('C18', 'deep_update.contract', [f'{CORE}:deep_update'], replay='contracts.C18:replay_overlay')
 def deep_update_contract(h):
     """One level with one key per class; the recursive call is used by contract (induction on depth)."""
     L = lambda n: leaf(h, n)    # noqa
     sub_b, sub_o = {'x': L('sb')}, {'y': L('so')}
+    # settings are matched without regard to case when validated (CIBaseModel): the overlay must win over a base entry
+    # spelled with another capitalisation, and a section spelled differently is still merged, not replaced
+    sub_c, sub_d = {'p': L('sc')}, {'q': L('sd')}
     merged_marker = {'merged': True}
-    base = {'only_base': L('b0'), 'leaf_leaf': L('b1'), 'dict_dict': sub_b, 'dict_leaf': {'z': L('b2')}, 'leaf_dict': L('b3')}
-    over = {'only_over': L('o0'), 'leaf_leaf': L('o1'), 'dict_dict': sub_o, 'dict_leaf': L('o2'), 'leaf_dict': {'w': L('o3')}}
+    # an overlay value of None is a value like any other (e.g. weather_data_dir = None: "the current directory")
+    base = {'only_base': L('b0'), 'leaf_leaf': L('b1'), 'dict_dict': sub_b, 'dict_leaf': {'z': L('b2')}, 'leaf_dict': L('b3'),
+            'leaf_none': L('b4'), 'dict_none': {'v': L('b5')}, 'case_leaf': L('b6'), 'Case_Dict': sub_c}
+    over = {'only_over': L('o0'), 'leaf_leaf': L('o1'), 'dict_dict': sub_o, 'dict_leaf': L('o2'), 'leaf_dict': {'w': L('o3')},
+            'leaf_none': None, 'dict_none': None, 'only_over_none': None, 'Case_LEAF': L('o6'), 'case_dict': sub_d}
     fi = h.func(f'{CORE}:deep_update')
     calls = []
     h.trust('deep_update treats keys uniformly (only `in`, subscripting and assignment): one key per presence/type class '
@@ -269,14 +275,21 @@ def deep_update_contract(h):
     h.I.summaries[fi.fq] = once
     r = h.I.call_function(fi, [base, over], {})
     h.ensure('returns-the-mutated-base', r is base)
-    h.ensure('keys-are-the-union', set(base) == set(base0) | set(over))
+    h.ensure('keys-are-the-union', set(k.lower() for k in base) == set(k.lower() for k in base0) | set(k.lower() for k in over))
+    h.ensure('one-entry-per-setting-whatever-its-capitalisation', len(set(k.lower() for k in base)) == len(base))
     h.ensure('base-only-keys-kept', base['only_base'] == base0['only_base'])
     h.ensure('overlay-only-keys-added', base['only_over'] == over['only_over'])
     h.ensure('overlay-leaf-wins', base['leaf_leaf'] == over['leaf_leaf'])
     h.ensure('overlay-leaf-replaces-section', (not isinstance(base['dict_leaf'], dict)) and base['dict_leaf'] == over['dict_leaf'])
     h.ensure('overlay-section-replaces-leaf', base['leaf_dict'] is over['leaf_dict'])
+    h.ensure('overlay-none-is-a-value-like-any-other',
+             all(k in base and base[k] is None for k in ('leaf_none', 'dict_none', 'only_over_none')))
+    by_lower = {k.lower(): v for k, v in base.items()}
+    h.ensure('overlay-wins-over-an-entry-spelled-with-another-capitalisation', all(v is over['Case_LEAF'] for k, v in base.items() if k.lower() == 'case_leaf'))
     h.ensure('nested-sections-merged-recursively',
-             len(calls) == 1 and calls[0][0] is sub_b and calls[0][1] is sub_o and base['dict_dict'] is sub_b)
+             len(calls) == 2 and calls[0][0] is sub_b and calls[0][1] is sub_o and base['dict_dict'] is sub_b and
+             calls[1][0] is sub_c and calls[1][1] is sub_d and by_lower.get('case_dict') is sub_c,
+             note=f'{len(calls)} recursive calls')
 
 
 @unit('C18', 'get-reset-proxy.state-machine', FUNCS)
@@ -332,6 +345,58 @@ def frozen_classes(h):
             h.fail('assignment-raises:' + c.name, 'attribute assignment on a configuration object succeeded')
         except PyExc:
             h.ensure('assignment-raises:' + c.name, o.attrs['x'] == 1)
+
+
+CONFIG_CLASSES = (f'{CORE}:Config', 'AEIC.config.emissions:EmissionsConfig', 'AEIC.config.weather:WeatherConfig')
+
+
+@unit('C18', 'frozen-classes.no-value-can-be-edited-in-place', list(CONFIG_CLASSES) + ['AEIC.config.emissions:EmissionsConfig.enabled_species'],
+      replay='contracts.C18:replay_in_place')
+def no_mutable_containers(h):
+    """'Its values (at every nesting level) cannot be changed': assignment is refused by the frozen classes (unit above); what
+    remains is editing a value in place.  Every declared field of the three configuration classes is of a type without
+    in-place operations (no list / set / dict), and the derived enabled_species set is handed out as a frozenset."""
+    import ast
+    mutable = []
+    for fq in CONFIG_CLASSES:
+        mod, cname = fq.split(':')
+        tree = h.repo.module(mod).tree
+        cdef = next(n for n in ast.walk(tree) if isinstance(n, ast.ClassDef) and n.name == cname)
+        for st in cdef.body:
+            if isinstance(st, ast.AnnAssign) and isinstance(st.target, ast.Name):
+                ann = ast.unparse(st.annotation).replace(' ', '')
+                heads = [a.split('[')[0].split('.')[-1] for a in ann.replace('Optional[', '').split('|')]
+                if any(hd in ('list', 'set', 'dict', 'List', 'Set', 'Dict', 'bytearray', 'deque', 'defaultdict') for hd in heads):
+                    mutable.append(f'{cname}.{st.target.id}: {ann}')
+    h.ensure('no-field-holds-a-container-that-can-be-edited-in-place', not mutable, note='; '.join(mutable))
+    from contracts import emis
+    ec = emis.setup_config(h, fixed=dict(climb_descent_mode='TRAJECTORY', co2_enabled=True, h2o_enabled=True, sox_enabled=True, nox_method='BFFM2',
+                                         hc_method='BFFM2', co_method='BFFM2', pmvol_method='FUEL_FLOW', pmnvol_method='MEEM', apu_enabled=True,
+                                         gse_enabled=True, lifecycle_enabled=True))
+    r = h.I.getattr(ec, 'enabled_species')
+    h.ensure('derived-species-set-is-handed-out-immutable', isinstance(r, frozenset) and len(r) > 0, note=f'{type(r).__name__}')
+
+
+def replay_in_place(payload):
+    import os
+    root = os.environ.get('AEIC_SRC', '/repo/src').rsplit('/src', 1)[0]
+    os.environ['AEIC_PATH'] = root + '/tests/data'
+    from AEIC.config import Config, config
+    Config.reset()
+    problems = []
+    try:
+        Config.load(data_path_overrides=[root + '/tests/data'])
+        for what, edit in (('config.path.append(...)', lambda: config.path.append('/elsewhere')),
+                           ('config.data_path_overrides.clear()', lambda: config.data_path_overrides.clear()),
+                           ('config.emissions.enabled_species.clear()', lambda: config.emissions.enabled_species.clear())):
+            try:
+                edit()
+                problems.append(f'{what} is accepted: the active configuration was changed in place')
+            except (AttributeError, TypeError):
+                pass
+        return dict(reproduced=bool(problems), observed=problems, required='values of the active configuration cannot be changed at any nesting level')
+    finally:
+        Config.reset()
 
 
 # ------------------------------------------------------------------------------------------------
@@ -396,6 +461,26 @@ def replay_overlay(payload):
         obs = dict(sox_enabled=c.emissions.sox_enabled, gse_enabled=c.emissions.gse_enabled,
                    apu_enabled=c.emissions.apu_enabled, use_weather=c.weather.use_weather, co2_enabled=c.emissions.co2_enabled)
         want = dict(sox_enabled=False, gse_enabled=False, apu_enabled=False, use_weather=False, co2_enabled=True)
+        Config.reset()
+        # a keyword argument of None overlays a value given by the file
+        with open(fn, 'ab') as f:
+            f.write(b'weather_data_dir = "/somewhere/weather"\n')
+        try:
+            c = Config.load(fn, data_path_overrides=[root + '/tests/data'], weather=dict(weather_data_dir=None))
+            obs['weather_data_dir'] = None if c.weather.weather_data_dir is None else str(c.weather.weather_data_dir)
+        except Exception as e:   # noqa
+            obs['weather_data_dir'] = f'load failed: {type(e).__name__}: {e}'
+        want['weather_data_dir'] = None
+        Config.reset()
+        # the file spells a setting with another capitalisation than the keyword argument
+        with open(fn, 'wb') as f:
+            f.write(b'[emissions]\nNOx_method = "none"\n')
+        try:
+            c = Config.load(fn, data_path_overrides=[root + '/tests/data'], emissions=dict(nox_method='p3t3'))
+            obs['nox_method'] = str(getattr(c.emissions.nox_method, 'value', c.emissions.nox_method))
+        except Exception as e:   # noqa
+            obs['nox_method'] = f'load failed: {type(e).__name__}: {e}'
+        want['nox_method'] = 'p3t3'
         return dict(reproduced=obs != want, observed=obs, required=want)
     finally:
         Config.reset()
